@@ -405,8 +405,14 @@ func vfCheckCodecWith(c *myCodec, m proto.Message) (failure string, labels map[s
 		"parser": func(b []byte, v proto.Message) error { return proto.Unmarshal(b, v) },
 	} {
 		v := m.ProtoReflect().New().Interface()
-		if err := dec(out, v); err != nil {
+		// the receiver owns its buffer and re-uses it as soon as the call has returned: the decoded message must not
+		// depend on it any more
+		buf := append(make([]byte, 0, len(out)+8), out...)
+		if err := dec(buf, v); err != nil {
 			return fmt.Sprintf("%s cannot decode the output: %v", name, err), labels
+		}
+		for i := range buf {
+			buf[i] = 0
 		}
 		ownBefore := 0
 		{
@@ -432,8 +438,22 @@ func vfCheckCodecWith(c *myCodec, m proto.Message) (failure string, labels map[s
 	if len(body) == 0 {
 		labels["empty-message"]++
 	}
+	// the returned bytes are the caller's: every third output is overwritten after it has been checked (a later Marshal,
+	// of an empty message in particular, must not hand out the same memory again)
+	vfScribble++
+	if vfScribble%3 == 0 {
+		for i := range out {
+			out[i] = 0xFF
+		}
+		if n := len(vfRecent); n > 0 && len(vfRecent[n-1].out) == len(out) {
+			vfRecent[n-1].snap = append([]byte{}, out...)
+		}
+		labels["caller-overwrites-the-returned-bytes"]++
+	}
 	return "", labels
 }
+
+var vfScribble int
 
 // ---- descriptor-driven filler ----------------------------------------------------------------------
 
